@@ -403,57 +403,81 @@ func (f FunctionBuilder) Compile(ctx *cert.CertificateContext) (*pkix.Extension,
 // Extensions will not be checked here, since this is covered by the override errors
 // when calling Compile().
 func Validate(profile CertificateProfile, content CertificateContent) bool {
-	//check subject attributes
-	if profile.SubjectAttributes.Attributes != nil {
-		//reverse a copy of the subject, since we are comparing against a string representation
-		//(content.Subject shares its backing array with the caller's configuration)
-		subject := make(pkix.RDNSequence, len(content.Subject))
-		copy(subject, content.Subject)
-		for i, j := 0, len(subject)-1; i < j; i, j = i+1, j-1 {
-			subject[i], subject[j] = subject[j], subject[i]
-		}
-		wantAttribute := 0
-		haveAttribute := 0
-		for {
-			if wantAttribute >= len(profile.SubjectAttributes.Attributes) ||
-				haveAttribute >= len(subject) {
-				break
-			}
+	attrs := profile.SubjectAttributes.Attributes
+	if attrs == nil {
+		return true
+	}
 
-			currentAttribute := profile.SubjectAttributes.Attributes[wantAttribute].Attribute
-			wantAt, err := GetRdnAttributeOid(currentAttribute)
+	//resolve the attribute types the profile asks for
+	want := make([]asn1.ObjectIdentifier, len(attrs))
+	for i, attr := range attrs {
+		oid, err := GetRdnAttributeOid(attr.Attribute)
+		if err != nil {
+			//do we have a custom oid?
+			oid, err = cert.OidFromString(attr.Attribute)
 			if err != nil {
-				//do we have a custom oid?
-				oid, err := cert.OidFromString(currentAttribute)
-				if err != nil {
-					logging.Warningf("profile violation: can't resolve %v to a known attribute OID",
-						currentAttribute)
-					return false
-				}
-				wantAt = oid
-			}
-
-			if wantAt.Equal(subject[haveAttribute][0].Type) {
-				wantAttribute++
-				haveAttribute++
-			} else {
-				if profile.SubjectAttributes.AllowOther {
-					haveAttribute++
-				} else {
-					logging.Warningf("profile violation: expected %v at this position, but got %v and allowOther is false",
-						wantAt, subject[haveAttribute][0].Type)
-					return false
-				}
+				logging.Warningf("profile violation: can't resolve %v to a known attribute OID",
+					attr.Attribute)
+				//an unresolvable attribute can never be matched
+				oid = nil
 			}
 		}
+		want[i] = oid
+	}
 
-		if haveAttribute < len(content.Subject) && !profile.SubjectAttributes.AllowOther {
-			logging.Warningf("profile violation: provided number of attributes larger than specified in profile while allowOther is false")
-			return false
+	//the subject is stored in reverse, since we are comparing against a string
+	//representation. content.Subject itself must not be touched.
+	have := make([]asn1.ObjectIdentifier, 0, len(content.Subject))
+	for i := len(content.Subject) - 1; i >= 0; i-- {
+		if len(content.Subject[i]) == 0 {
+			continue
 		}
+		have = append(have, content.Subject[i][0].Type)
+	}
+
+	if profile.SubjectAttributes.AllowOther {
+		//other attributes may appear anywhere, but mandatory ones must be there
+		for i, attr := range attrs {
+			if attr.Optional {
+				continue
+			}
+			found := false
+			for _, h := range have {
+				if len(want[i]) > 0 && want[i].Equal(h) {
+					found = true
+					break
+				}
+			}
+			if !found {
+				logging.Warningf("profile violation: mandatory attribute %v is missing", attr.Attribute)
+				return false
+			}
+		}
+		return true
+	}
+
+	if !subjectMatchesAttributes(have, attrs, want) {
+		logging.Warningf("profile violation: subject does not list the profile's attributes in order " +
+			"(only optional ones may be left out) and allowOther is false")
+		return false
 	}
 
 	return true
+}
+
+// Reports whether have consists of the profile's attributes in the profile's order,
+// leaving out nothing but optional attributes.
+func subjectMatchesAttributes(have []asn1.ObjectIdentifier, attrs []ProfileSubjectAttribute, want []asn1.ObjectIdentifier) bool {
+	if len(attrs) == 0 {
+		return len(have) == 0
+	}
+
+	if len(have) > 0 && len(want[0]) > 0 && want[0].Equal(have[0]) &&
+		subjectMatchesAttributes(have[1:], attrs[1:], want[1:]) {
+		return true
+	}
+
+	return attrs[0].Optional && subjectMatchesAttributes(have, attrs[1:], want[1:])
 }
 
 // Function to merge a certificate profile into a certificate configuration.
